@@ -24,6 +24,8 @@ from typing import TYPE_CHECKING, List, Optional, Set, Tuple, Union, cast
 
 from .._cache import DNSCache, _UniqueRecordsType
 from .._dns import DNSAddress, DNSPointer, DNSQuestion, DNSRecord, DNSRRSet
+from .._exceptions import NamePartTooLongException
+from .._logger import log
 from .._protocol.incoming import DNSIncoming
 from .._services.info import ServiceInfo
 from .._transport import _WrappedTransport
@@ -425,7 +427,15 @@ class QueryHandler:
             # When sending unicast, only send back the reply
             # via the same socket that it was recieved from
             # as we know its reachable from that socket
-            self.zc.async_send(out, addr, port, v6_flow_scope, transport)
+            try:
+                self.zc.async_send(out, addr, port, v6_flow_scope, transport)
+            except NamePartTooLongException:
+                # The reply to a legacy unicast query echoes its questions. A name
+                # decoded from bytes that are not valid UTF-8 grows when it is encoded
+                # again and may no longer fit a label; such a query cannot be answered
+                # by unicast, and it must not stop the multicast reply or raise into
+                # the event loop.
+                log.debug("Dropping unicast reply to %s:%s: a question name cannot be encoded", addr, port)
         if question_answers.mcast_now:
             self.zc.async_send(construct_outgoing_multicast_answers(question_answers.mcast_now))
         if question_answers.mcast_aggregate:
